@@ -1,3 +1,266 @@
 package main
 
-func c09Replay(args []string) int { return 2 }
+// C09: decorated / undecorated pairs of the programs of spec/Decor.tla through the real linter and simulator.
+
+import (
+	"crypto/sha1"
+	"encoding/hex"
+	"encoding/json"
+	"fmt"
+	"io"
+	"math/rand"
+	"net/http"
+	"net/http/httptest"
+	"net/url"
+	"os"
+	"sort"
+	"strings"
+
+	"verif/harness/internal/hx"
+
+	"github.com/ysugimoto/falco/v2/ast"
+	"github.com/ysugimoto/falco/v2/config"
+	"github.com/ysugimoto/falco/v2/interpreter"
+	"github.com/ysugimoto/falco/v2/interpreter/context"
+	"github.com/ysugimoto/falco/v2/linter"
+	"github.com/ysugimoto/falco/v2/resolver"
+)
+
+type decorProgram struct {
+	Name   string      `json:"name"`
+	Exec   bool        `json:"exec"`
+	Toks   []string    `json:"toks"`
+	Decors [][]comment `json:"decors"`
+	Lays   []int       `json:"lays"`
+	Logs   []string    `json:"logs"`
+	Path   []string    `json:"path"`
+}
+
+// what the property compares
+type c09Obs struct {
+	Parse string   `json:"parse,omitempty"`
+	Lint  []string `json:"lint"`
+	Sim   *simObs  `json:"sim,omitempty"`
+}
+
+type simObs struct {
+	Flows    []string `json:"flows"`
+	Logs     []string `json:"logs"`
+	Restarts int      `json:"restarts"`
+	Error    string   `json:"error"`
+	Code     int      `json:"code"`
+	Crash    string   `json:"crash,omitempty"`
+}
+
+func lintObs(src string) (obs []string, perr string) {
+	v, err := parseVCL(src)
+	if err != nil {
+		return nil, err.Error()
+	}
+	l := linter.New(&config.LinterConfig{})
+	func() {
+		defer func() {
+			if r := recover(); r != nil {
+				obs = append(obs, fmt.Sprintf("PANIC|%v", r))
+			}
+		}()
+		l.Lint(v, nil)
+	}()
+	if l.FatalError != nil {
+		obs = append(obs, "FATAL|"+l.FatalError.Error.Error())
+	}
+	for _, e := range l.Errors {
+		obs = append(obs, fmt.Sprintf("%s|%s|%s", e.Severity, e.Rule, e.Message))
+	}
+	sort.Strings(obs)
+	if obs == nil {
+		obs = []string{}
+	}
+	return obs, ""
+}
+
+type quietDebugger struct{ interpreter.DefaultDebugger }
+
+func (quietDebugger) Message(string)                {}
+func (quietDebugger) Log(*ast.LogStatement, string) {}
+
+type simReport struct {
+	Flows []struct {
+		Subroutine string `json:"subroutine"`
+	} `json:"flows"`
+	Logs []struct {
+		Message string `json:"message"`
+	} `json:"logs"`
+	Restarts int    `json:"restarts"`
+	Error    string `json:"error"`
+}
+
+func simulate(src string) (o *simObs) {
+	o = &simObs{Flows: []string{}, Logs: []string{}}
+	defer func() {
+		if r := recover(); r != nil {
+			o.Crash = fmt.Sprint(r)
+		}
+	}()
+	ip := interpreter.New(context.WithResolver(resolver.NewStaticResolver("main", src)))
+	ip.Debugger = quietDebugger{}
+	rec := httptest.NewRecorder()
+	req := httptest.NewRequest("GET", "http://localhost/x", nil)
+	req.Header.Set("A", "a")
+	ip.ServeHTTP(rec, req)
+	res := rec.Result()
+	o.Code = res.StatusCode
+	body, _ := io.ReadAll(res.Body)
+	var rep simReport
+	json.Unmarshal(body, &rep) // nolint:errcheck
+	for _, f := range rep.Flows {
+		o.Flows = append(o.Flows, f.Subroutine)
+	}
+	for _, l := range rep.Logs {
+		o.Logs = append(o.Logs, l.Message)
+	}
+	o.Restarts = rep.Restarts
+	o.Error = rep.Error
+	return o
+}
+
+func eqS(a, b []string) bool {
+	if len(a) != len(b) {
+		return false
+	}
+	for i := range a {
+		if a[i] != b[i] {
+			return false
+		}
+	}
+	return true
+}
+
+func c09Replay(args []string) int {
+	server := httptest.NewServer(http.HandlerFunc(func(w http.ResponseWriter, r *http.Request) {
+		w.Header().Set("Cache-Control", "max-age=100")
+		w.WriteHeader(200)
+		w.Write([]byte("OK")) // nolint:errcheck
+	}))
+	defer server.Close()
+	u, _ := url.Parse(server.URL)
+	concretize := func(s string) string {
+		return strings.ReplaceAll(strings.ReplaceAll(s, "__HOST__", u.Hostname()), "__PORT__", u.Port())
+	}
+	seed := hx.Seed()
+	out := hx.NewOut()
+	defer out.Close()
+	nprog := 0
+	err := hx.Lines(func(line []byte) error {
+		var p decorProgram
+		if err := json.Unmarshal(line, &p); err != nil {
+			return err
+		}
+		nprog++
+		toks := decodeToks(p.Toks)
+		base, gaps := render(toks, nil, &layout{})
+		base = concretize(base)
+		var b c09Obs
+		b.Lint, b.Parse = lintObs(base)
+		res := hx.CaseResult{ID: "base:" + p.Name, Class: map[string]any{"program": p.Name, "exec": p.Exec}, Key: "base:" + p.Name}
+		if b.Parse != "" {
+			res.Drift = append(res.Drift, map[string]any{"obs": "render-unparseable", "src": base, "err": b.Parse})
+			out.Write(res)
+			return nil
+		}
+		if p.Exec {
+			b.Sim = simulate(base)
+			// the specification's prediction for the undecorated program (mechanism observable)
+			var got []string
+			for _, f := range b.Sim.Flows {
+				if strings.HasPrefix(f, "vcl_") {
+					got = append(got, strings.TrimPrefix(f, "vcl_"))
+				}
+			}
+			if !eqS(got, p.Path) || !eqS(b.Sim.Logs, p.Logs) || b.Sim.Crash != "" {
+				res.Drift = append(res.Drift, map[string]any{"obs": "prediction", "path": got, "want_path": p.Path, "logs": b.Sim.Logs,
+					"want_logs": p.Logs, "error": b.Sim.Error, "crash": b.Sim.Crash})
+			}
+			// the simulator is deterministic on the fields compared (else nothing below means anything)
+			again := simulate(base)
+			if canon(again) != canon(b.Sim) {
+				res.Drift = append(res.Drift, map[string]any{"obs": "simulator-not-repeatable", "a": b.Sim, "b": again})
+				out.Write(res)
+				return nil
+			}
+		}
+		res.Input = map[string]any{"program": p.Name, "src": base}
+		res.Observed = b
+		out.Write(res)
+		for di, d := range p.Decors {
+			for _, lay := range p.Lays {
+				l := &layout{}
+				if lay == 1 {
+					l.rng = rand.New(rand.NewSource(seed*1000003 + int64(nprog)*7919 + int64(di)))
+				}
+				src, _ := render(toks, d, l)
+				src = concretize(src)
+				h := sha1.Sum([]byte(p.Name + "\x00" + src))
+				id := hex.EncodeToString(h[:6])
+				var gl, gm, gn []string
+				for _, c := range d {
+					g := gaps[c.At-1]
+					gl = append(gl, g.N+"."+g.L)
+					gm = append(gm, c.M)
+					gn = append(gn, nextWord(p.Toks, c.At))
+				}
+				r := hx.CaseResult{ID: id, Key: id, Class: map[string]any{"program": p.Name, "exec": p.Exec, "gap": strings.Join(gl, "+"),
+					"marker": strings.Join(gm, "+"), "gap_next": strings.Join(gn, "+"), "lay": lay}}
+				var o c09Obs
+				o.Lint, o.Parse = lintObs(src)
+				fail := func() {
+					r.Input = map[string]any{"program": p.Name, "src": src, "base": base, "decor": d, "lay": lay}
+					r.Observed = map[string]any{"decorated": o, "undecorated": b}
+				}
+				if o.Parse != "" {
+					// not a position where the grammar allows a comment
+					r.Drift = append(r.Drift, map[string]any{"obs": "decorated-unparseable", "err": o.Parse})
+					fail()
+					out.Write(r)
+					continue
+				}
+				if !eqS(o.Lint, b.Lint) {
+					r.Mismatch = append(r.Mismatch, map[string]any{"obs": "lint-differs", "decorated": diffS(o.Lint, b.Lint), "undecorated": diffS(b.Lint, o.Lint)})
+				}
+				if p.Exec {
+					o.Sim = simulate(src)
+					if canon(o.Sim) != canon(b.Sim) {
+						r.Mismatch = append(r.Mismatch, map[string]any{"obs": "simulation-differs", "decorated": o.Sim, "undecorated": b.Sim})
+					}
+				}
+				if len(r.Mismatch) > 0 {
+					fail()
+				}
+				out.Write(r)
+			}
+		}
+		return nil
+	})
+	if err != nil {
+		fmt.Fprintln(os.Stderr, err)
+		return 2
+	}
+	return 0
+}
+
+// diffS: elements of a that are not in b
+func diffS(a, b []string) []string {
+	in := map[string]int{}
+	for _, x := range b {
+		in[x]++
+	}
+	out := []string{}
+	for _, x := range a {
+		if in[x] > 0 {
+			in[x]--
+			continue
+		}
+		out = append(out, x)
+	}
+	return out
+}
